@@ -1,0 +1,33 @@
+//go:build verif
+
+package config
+
+import "github.com/jmattheis/goverter/pkgload"
+
+// ParseEachVerif parses every raw converter separately over one shared package loader.
+func ParseEachVerif(raw *Raw) ([]*Converter, []error, error) {
+	loader, err := pkgload.New(raw.WorkDir, raw.BuildTags, getPackages(raw))
+	if err != nil {
+		return nil, nil, err
+	}
+	ctx := &context{Loader: loader, EnumTransformers: raw.EnumTransformers, WorkDir: raw.WorkDir}
+	convs := make([]*Converter, len(raw.Converters))
+	errs := make([]error, len(raw.Converters))
+	for i := range raw.Converters {
+		rc := raw.Converters[i]
+		func() {
+			defer func() {
+				if r := recover(); r != nil {
+					errs[i] = &PanicVerif{Value: r}
+				}
+			}()
+			convs[i], errs[i] = parseConverter(ctx, &rc, raw.Global)
+		}()
+	}
+	return convs, errs, nil
+}
+
+// PanicVerif marks a panic recovered while parsing one converter.
+type PanicVerif struct{ Value any }
+
+func (p *PanicVerif) Error() string { return "panic" }
